@@ -241,27 +241,28 @@ pub fn run(a: &Args) -> i32 {
     let code = CaseCode { id: 0, prelude: String::new(), tokens, ops: vec![("Q".into(), "q".into())], enums: vec![], no_serialize: false };
     // the same operation generated under `normalization = rust`: `ID` keeps its name and its coercion there too
     let mut codes = vec![code];
-    {
+    // ... and with `skip_serializing_none` (a nullable ID position then carries its `default` next to `skip_serializing_if`)
+    for (cid, what, rust, skip) in [(1usize, "normalization rust", true, false), (2usize, "skip_serializing_none", false, true)] {
         let mut ropts = Opts::harness();
-        ropts.normalization_rust = true;
+        ropts.normalization_rust = rust;
+        ropts.skip_none = skip;
         let r = ctx.run(&sdl, false, &qtext, &ropts);
         if !r.diffs.is_empty() {
-            rep.disagree(json!({"what": "IR (normalization rust)", "diffs": r.diffs.iter().take(6).collect::<Vec<_>>()}));
+            rep.disagree(json!({"what": format!("IR ({})", what), "diffs": r.diffs.iter().take(6).collect::<Vec<_>>()}));
         }
         match (&r.real, &r.modules) {
             (RealOutcome::Ok(t), Some(m)) if !m.is_empty() => {
-                check_attachment(&mut rep, &m[0].items, &shapes, "sdl-with-builtin-scalars/normalization-rust");
-                codes.push(CaseCode { id: 1, prelude: String::new(), tokens: t.clone(), ops: vec![("Q".into(), "q".into())], enums: vec![], no_serialize: false });
+                check_attachment(&mut rep, &m[0].items, &shapes, &format!("sdl-with-builtin-scalars/{}", what.replace(' ', "-")));
+                codes.push(CaseCode { id: cid, prelude: String::new(), tokens: t.clone(), ops: vec![("Q".into(), "q".into())], enums: vec![], no_serialize: false });
             }
-            (RealOutcome::Ok(_), _) => rep.disagree(json!({"what": "the emitted tokens could not be read into the IR", "file": "c16.rs", "options": "normalization rust"})),
-            (other, _) => rep.fail("generation-failed", json!({"options": "normalization rust", "outcome": format!("{:?}", other).chars().take(300).collect::<String>()})),
+            (RealOutcome::Ok(_), _) => rep.disagree(json!({"what": "the emitted tokens could not be read into the IR", "file": "c16.rs", "options": what})),
+            (other, _) => rep.fail("generation-failed", json!({"options": what, "outcome": format!("{:?}", other).chars().take(300).collect::<String>()})),
         }
     }
-    let n_codes = codes.len();
     let build = build_consumer("c16", &codes, true, &[]);
-    for cid in 0..n_codes {
+    for cid in codes.iter().map(|c| c.id) {
         if !build.compiled.contains(&cid) {
-            rep.fail("id-positions-do-not-compile", json!({"normalization_rust": cid == 1, "errors": build.failed.get(&cid), "global": build.global_errors, "schema": sdl, "query": qtext}));
+            rep.fail("id-positions-do-not-compile", json!({"normalization_rust": cid == 1, "skip_serializing_none": cid == 2, "errors": build.failed.get(&cid), "global": build.global_errors, "schema": sdl, "query": qtext}));
         }
     }
     if !build.compiled.contains(&0) {
@@ -330,6 +331,9 @@ pub fn run(a: &Args) -> i32 {
     if rust_too {
         runs.extend(vs.iter().map(|v| (1usize, v)));
     }
+    if build.compiled.contains(&2) {
+        runs.extend(vs.iter().map(|v| (2usize, v)));
+    }
     let requests: Vec<(usize, String, String, String)> = runs.iter().map(|(cid, v)| (*cid, "de".to_string(), "Q".to_string(), v.payload.to_string())).collect();
     let replies = run_consumer(&exe, &requests);
     for ((cid, v), raw) in runs.iter().zip(replies.iter()) {
@@ -345,7 +349,7 @@ pub fn run(a: &Args) -> i32 {
             Some(x) => id_accepts(t, x),
             None => !t.is_non_null(), // an absent key is fine exactly at nullable positions
         };
-        let case = json!({"position": v.position, "graphql_type": t.render(), "value": v.value, "payload": v.payload, "implementation_reply": raw, "schema": sdl, "query": qtext, "normalization_rust": cid == 1});
+        let case = json!({"position": v.position, "graphql_type": t.render(), "value": v.value, "payload": v.payload, "implementation_reply": raw, "schema": sdl, "query": qtext, "normalization_rust": cid == 1, "skip_serializing_none": cid == 2});
         match &reply {
             Reply::Ok(reser) => {
                 if !should_accept {
